@@ -307,6 +307,38 @@ def conventions(rep, tier, timeout):
         go("structural-weight loads on the modelled half (root node excluded: it is clamped)", a, b, {"element_mass": em, "nodes": nodes, "load_factor": lf},
            {"element_mass": ext_span_scalar(em), "nodes": nodes_f, "load_factor": lf}, {"struct_weight_loads": (lambda g: g[:nym], lambda o: np.asarray(o["struct_weight_loads"], dtype=object)[:nym])},
            levels=(1, 2))
+        # fuel loads (half share) and fuel-volume margin
+        swo = {"fem_model_type": "wingbox"}
+        a, b, _, _ = pair("structures.fuel_loads", "FuelLoads", over=swo)
+        fvol = symarray("fuel_vols", (nym,))
+        fm = [var("fuel_mass")]
+        go("fuel-weight loads on the modelled half (root node excluded: it is clamped)", a, b, {"fuel_vols": fvol, "nodes": nodes, "fuel_mass": fm, "load_factor": lf},
+           {"fuel_vols": ext_span_scalar(fvol), "nodes": nodes_f, "fuel_mass": fm, "load_factor": lf},
+           {"fuel_weight_loads": (lambda g: g[:nym], lambda o: np.asarray(o["fuel_weight_loads"], dtype=object)[:nym])}, levels=(1, 2))
+        a, b, _, _ = pair("structures.wingbox_fuel_vol_delta", "WingboxFuelVolDelta", over=swo)
+        fb = [var("fuelburn")]
+        go("fuel-volume margin of the half model is the half-wing share (same sign as the full-wing margin)", a, b, {"fuelburn": fb, "fuel_vols": fvol},
+           {"fuelburn": fb, "fuel_vols": ext_span_scalar(fvol)}, {"fuel_vol_delta": lambda o: np.asarray(o["fuel_vol_delta"], dtype=object) / 2})
+        # structure: the full-span stiffness with the centre node clamped decouples; the left block is the half model
+        from props import c10
+        sh, sf = K.surface(nx, nyh, True), K.surface(nx, nyf, False)
+        chh, chf = c10.Chain(sh), c10.Chain(sf)
+        chh.encode(rep)
+        Aa2, Iy, Iz, Jj = (symarray(n_, (nym,)) for n_ in ("A", "Iy", "Iz", "J"))
+        Kh, _, _ = chh.sym_K(nodes, Aa2, Iy, Iz, Jj)
+        Kf, _, _ = chf.sym_K(nodes_f, ext_span_scalar(Aa2), ext_span_scalar(Iy), ext_span_scalar(Iz), ext_span_scalar(Jj))
+        obs = []
+        nl = 6 * nym  # DOFs of the non-root nodes of the modelled half
+        for r in range(nl):
+            for c in range(6 * nyh):
+                obs.append(oblig.Ob("K_full[%d,%d] == K_half" % (r, c), lhs=Kf[r, c], rhs=Kh[r, c], meta={"family": "equations of the modelled half are those of the half model", "idx": [r, c]}))
+            for c in range(6 * nyh, 6 * nyf):
+                obs.append(oblig.Ob("K_full[%d,%d] == 0" % (r, c), lhs=Kf[r, c], rhs=ZERO, meta={"family": "the modelled half is coupled to the other half only through the clamped centre node", "idx": [r, c]}))
+        # the clamp acts on the same node
+        for a_ in range(6):
+            obs.append(oblig.Ob("clamp row %d" % a_, lhs=Kf[6 * nyf + a_, 6 * (nyh - 1) + a_], rhs=Kh[6 * nyh + a_, 6 * (nyh - 1) + a_],
+                                meta={"family": "full-span and half-span models clamp the same (centre / symmetry-plane) node", "idx": [a_, a_]}))
+        run_obligations(rep, "FEM stiffness half vs full [%s]" % lab, obs, timeout, levels=(1, 2), family=lambda ob: "FEM: half model vs full model, " + ob.meta["family"])
     return
 
 
